@@ -616,3 +616,101 @@ func runC04(R *vlib.Out) {
 done:
 	finishSched(R)
 }
+
+// ---- C18, connection part: end-of-message detection recognises the CheckSum tag only at a field
+// boundary.  Messages whose values contain / end with "10=", whose tags end in 10, or that carry a
+// field longer than the reader's buffer are delivered through the real Conn on the scripted socket
+// in several read partitions; the delivered boundaries must be the sent boundaries.
+
+func c18Pool() [][]byte {
+	var out [][]byte
+	seq := 1
+	add := func(fields ...string) {
+		out = append(out, appMsg(seq, fields...))
+		seq++
+	}
+	for _, v := range []string{"10=", "10=abc", "x10=abc", "see 10=abc", "10=000", "=10=", "\x0210=123", "110=abc", "1\x0210=1"} {
+		add("58=" + v)
+		add("58="+v, "59=tail")
+	}
+	for _, tg := range []string{"110", "210", "1010", "100", "101"} {
+		add(tg + "=abc")
+		add(tg+"=100", "58=x")
+		add(tg + "=10=")
+	}
+	add("58="+strings.Repeat("x", 4093)+"10=abc", "11=after")
+	return out
+}
+
+func runC18conn(R *vlib.Out) {
+	pool := c18Pool()
+	unit := 0
+	for _, role := range []string{"ini", "acc"} {
+		for pi := range pool {
+			for qi := range pool {
+				if qi != (pi+1)%len(pool) && qi != (pi+7)%len(pool) {
+					continue
+				}
+				stream := append(append([]byte{}, pool[pi]...), pool[qi]...)
+				cutsets := [][]int{nil, {-1}, {-2}, {len(pool[pi]) - 5}, {len(pool[pi]) - 3, len(pool[pi]) + 9}}
+				for _, cuts := range cutsets {
+					unit++
+					if !vlib.Mine(unit) {
+						continue
+					}
+					if vlib.Expired() {
+						R.Cap("deadline")
+						return
+					}
+					R.Eval()
+					var seen [][]byte
+					served := false
+					r := vsched.Run(vsched.Options{StrictTime: true, MaxSteps: 400000}, func() {
+						cn := newConn(0)
+						rec := func(m []byte) bool { seen = append(seen, append([]byte{}, m...)); return true }
+						if role == "ini" {
+							h := simplefixgo.NewInitiatorHandler(context.Background(), "35", 1)
+							h.HandleIncoming(simplefixgo.AllMsgTypes, rec)
+							cl := simplefixgo.NewInitiator(cn, h, 1, 5*time.Second)
+							go func() { _ = cl.Serve(); served = true }()
+						} else {
+							l := &slistener{}
+							a := simplefixgo.NewAcceptor(l, simplefixgo.NewAcceptorHandlerFactory("35", 1), 5*time.Second, func(h simplefixgo.AcceptorHandler) {
+								h.HandleIncoming(simplefixgo.AllMsgTypes, rec)
+							})
+							go func() { _ = a.ListenAndServe(); served = true }()
+							l.q = append(l.q, cn)
+						}
+						vsched.Settle()
+						cn.feed(chunksOf(stream, [][]byte{pool[pi], pool[qi]}, cuts)...)
+						vsched.Settle()
+						cn.eof = true
+						time.Sleep(5 * time.Second)
+						vsched.Settle()
+					})
+					_ = served
+					R.Transitions += int64(r.Steps)
+					key := fmt.Sprintf("conn/%s/%d/%d/%v", role, pi, qi, cuts)
+					R.ClassU(key)
+					R.State(key)
+					if r.Panic != "" {
+						R.Violate("conn:panic-in-task:"+r.PanicTask, r.Panic, map[string]any{"role": role, "p": pi, "q": qi, "cuts": cuts})
+						continue
+					}
+					ok := len(seen) == 2 && bytes.Equal(seen[0], pool[pi]) && bytes.Equal(seen[1], pool[qi])
+					if !ok {
+						var got []string
+						for _, m := range seen {
+							got = append(got, show(m))
+						}
+						R.Violate("conn:message-boundary-moved", fmt.Sprintf("%s: sent %q and %q, delivered %d: %q", key, show(pool[pi]), show(pool[qi]), len(seen), got),
+							map[string]any{"role": role, "p": pi, "q": qi, "cuts": cuts})
+					} else {
+						R.Outcome("conn: boundaries kept")
+						R.Sample(3, map[string]any{"role": role, "first": show(pool[pi]), "cuts": cuts})
+					}
+				}
+			}
+		}
+	}
+}
